@@ -22,6 +22,8 @@ var c11Queries = []string{
 	"SELECT a, `distinct=>dup` AS d FROM t WHERE a > ?",
 	"SELECT p FROM `mix=>t.items` WHERE p > ?",
 	"SELECT a, `items[0].p` AS p0, `dup[(0:1)]` AS d FROM t WHERE a > ?",
+	"SELECT a, (WITH c AS (SELECT p FROM items) SELECT p FROM c) AS s FROM t WHERE a > ?",
+	"SELECT a, FIRST((WITH c AS (SELECT p FROM items WHERE p > ?) SELECT p FROM c)) AS s FROM t",
 	// joins with unmatched rows on either side, with and without aliases (from here: unwrapped only)
 	"SELECT * FROM t LEFT JOIN u ON t.a = u.a WHERE a > ?",
 	"SELECT * FROM t RIGHT JOIN u ON t.a = u.a WHERE a > ?",
@@ -38,7 +40,7 @@ var c11Queries = []string{
 	"SELECT x.a AS k, y.w AS v FROM t x LEFT JOIN u y ON x.a = y.a WHERE x.a > ? ORDER BY k",
 }
 
-const c11FirstJoin = 19
+const c11FirstJoin = 21
 
 var faultAt, faultCalls int
 
@@ -80,6 +82,19 @@ func H_C11_readonly() {
 			u = append(u, Map{"a": rows[0]["a"], "w": rows[0]["a"]})
 		}
 		doc["u"] = u
+	}
+	// a document whose rows already have a key spelled like the navigation
+	// marker (queries with subqueries only)
+	hasSub := false
+	for i := 0; i+7 <= len(c11Queries[qi]); i++ {
+		if c11Queries[qi][i:i+7] == "(SELECT" || c11Queries[qi][i:i+5] == "(WITH" {
+			hasSub = true
+		}
+	}
+	if hasSub && verif.Choose("marker-key-in-document", 2) == 1 {
+		for _, r := range rows {
+			r["<-"] = float64(1)
+		}
 	}
 	snap := verif.Snapshot(doc)
 	c := verif.F64("c")
